@@ -10,6 +10,11 @@ SSIcov.run is also driven in its uncertainty call form (method cov_mm, calc_unc=
 "SSIcov.run+unc"): the enumerated pole table then comes with a designed table of frequency uncertainties (three
 bands) and hc['cov_max'] takes four levels (off, the default 0.2, two tighter ones), so that the covariance hard
 criterion removes none, some or all of the poles; the labels are judged against the tables that run() returns.
+
+Other live objects (class routes): between the creation of the judged algorithm and its run(), none / one of the same parameter
+class / one of the other parameter class / one of each are created with an explicit sc holding a DIFFERENT tolerance triple
+(create all algorithms, then run them). The labels are judged against the triple handed to the judged algorithm, and the sc
+stored on every live object must still be the one handed to it.
 """
 import numpy as np
 
@@ -21,7 +26,9 @@ ID = "C10"
 TECHNIQUE = ("bounded-exhaustive enumeration of pole tables over a symbolic pole catalogue x ordmin/ordmax x tolerance "
              "triples, every label compared with a brute-force reference labeller written from the statement; routes "
              "gen.SC_apply and result.Lab of the real SSIcov.run / pLSCF.run under designed pole populations, SSIcov.run also "
-             "with calc_unc=True under designed uncertainty tables x levels of hc['cov_max'] (none / some / all poles removed)")
+             "with calc_unc=True under designed uncertainty tables x levels of hc['cov_max'] (none / some / all poles removed); on the "
+             "class routes other algorithm / run-parameter objects with different explicit tolerance triples are created between "
+             "the creation and the run of the judged algorithm (none / same class / other class / both, rotating over the cases)")
 LEVEL_TEXT = ("small-scope exhaustive: every table of the stated shapes over the stated catalogue is executed and every "
               "cell's label is judged; nothing is sampled")
 RULE = ("a case is one pole table, executed over its whole (ordmin, ordmax, tolerance triple) grid; non-trivial = under at "
@@ -46,6 +53,15 @@ ASSUMPTIONS = [
     "(removes bands 1 and 2) and 1e-6 (removes everything); which poles a level removes is known from the designed table "
     "(ground truth), never read from the library's output; (ordmin, tolerance triple) rotate with (design, level) so that "
     "every ordmin class and every triple occurs",
+    "other live objects (class routes): the mode none / same-class / other-class / same-and-other-class is fixed by (table index + "
+    "ordmin + 2 * tolerance index [+ design + level]) mod 4; the other objects are created AFTER the judged algorithm and BEFORE its "
+    "run() and stay alive until its labels were judged; each is one of SSIcov, SSIdat, SSIcov_MS, SSIdat_MS (SSIRunParams) or pLSCF, "
+    "pLSCF_MS (pLSCFRunParams), created as algorithm(**kwargs), bare run-parameter object, algorithm(run_params=object) or "
+    "algorithm().set_run_params(object) in rotation, with a complete explicit sc in another key order whose triple differs from the "
+    "judged one (another of the three triples, or the judged triple with one component taken from another triple); the other objects "
+    "are not run; partial sc dictionaries are outside the space (the library's run() needs all three keys); the expected labels use "
+    "the triple this check handed over, never the value read back from run_params.sc, and the stored sc of every live object and "
+    "every handed-over dictionary is compared with the handed-over values after run()",
 ]
 
 SYMS = ["b", "f05", "f3", "x2", "x50", "m01", "m5", "far", "fartwin", "nan"]
@@ -328,13 +344,77 @@ def sc_dict(tol, k):
     return {key: val[key] for key in _SC_ORDERS[k % 6]}
 
 
+# ---- other live objects ------------------------------------------------------------------------------
+# The usual way a setup is filled: create ALL the algorithms (each with its own soft criteria), add them, run them. The labels of one
+# algorithm follow from ITS tables and from the tolerances handed to IT, whatever other algorithm or run-parameter objects exist.
+OTHER_MODES = ("none", "same-class", "other-class", "same-and-other-class")
+OTHER_FORMS = ("algorithm(**kwargs)", "run-parameter-object", "algorithm(run_params=object)", "algorithm().set_run_params(object)")
+_SSI_FAMILY = ("SSIcov", "SSIdat", "SSIcov_MS", "SSIdat_MS")
+_PLSCF_FAMILY = ("pLSCF", "pLSCF_MS")
+
+
+def other_mode(idx, prm):
+    """Which other objects are alive while the judged algorithm runs: fixed by the table index and the grid element."""
+    return (int(idx) + int(prm[0]) + 2 * int(prm[2]) + sum(int(x) for x in prm[3:])) % len(OTHER_MODES)
+
+
+def other_triple(ti, which, variant):
+    """Tolerance triple of another object: the triple TOLS[(ti + which) % 3] (variant 0) or the judged triple with only its
+    component variant-1 taken from that other triple (variants 1, 2, 3). Always different from TOLS[ti]."""
+    o = TOLS[(ti + which) % len(TOLS)]
+    if variant == 0:
+        return tuple(o)
+    t = list(TOLS[ti])
+    t[variant - 1] = o[variant - 1]
+    return tuple(t)
+
+
+def make_others(route, mode, idx, ti):
+    """Construct the other live objects of a case: [(object, description, own copy of the handed-over values, the dict handed over)].
+    'same class' = an object holding run parameters of the judged algorithm's parameter class, 'other class' = of the other one;
+    each gets an explicit sc with a different triple, written in another key order, through a rotating call form."""
+    import pyoma2.algorithms.plscf as m_pl
+    import pyoma2.algorithms.ssi as m_ssi
+
+    if mode == 0:
+        return []
+    judged_ssi = route != "pLSCF.run"
+    kinds = {1: ("same",), 2: ("other",), 3: ("same", "other") if (idx // 4) % 2 == 0 else ("other", "same")}[mode]
+    out = []
+    for n, kind in enumerate(kinds):
+        ssi = judged_ssi if kind == "same" else not judged_ssi
+        rot = idx // 4 + n + ti
+        fam = _SSI_FAMILY if ssi else _PLSCF_FAMILY
+        cls = getattr(m_ssi if ssi else m_pl, fam[rot % len(fam)])
+        tol = other_triple(ti, 1 if kind == "same" else 2, (idx // 8 + n) % 4)
+        sc = sc_dict(tol, rot + 1)
+        given = {"err_fn": tol[0], "err_xi": tol[1], "err_phi": tol[2]}
+        kw = dict(br=4 + rot % 3, ordmax=6 + rot % 5) if ssi else dict(ordmax=6 + rot % 5, nxseg=64)
+        form = (idx // 2 + n) % len(OTHER_FORMS)
+        if form == 0:
+            obj = cls(name=f"other{n}", sc=sc, **kw)
+        elif form == 1:
+            obj = cls.RunParamCls(sc=sc, **kw)
+        elif form == 2:
+            obj = cls(run_params=cls.RunParamCls(sc=sc, **kw), name=f"other{n}")
+        else:
+            obj = cls(name=f"other{n}").set_run_params(cls.RunParamCls(sc=sc, **kw))
+        out.append((obj, f"{kind}-class {cls.__name__} by {OTHER_FORMS[form]} with sc={sc}", given, sc))
+    return out
+
+
+def stored_sc(obj):
+    rp = getattr(obj, "run_params", obj)
+    return rp.sc
+
+
 def ssi_setup(C):
     """(record length, block rows) allowing ordmax = C-1 with two channels."""
     br = max(2, (C - 1 + 1) // 2 + 1)
     return max(24, 6 * br), br
 
 
-def run_ssicov(seed, raw, ordmin, tol, alg=None):
+def run_ssicov(seed, raw, ordmin, tol, alg=None, env=None):
     from pyoma2.algorithms.ssi import SSIcov
 
     C = raw[0].shape[1]
@@ -346,8 +426,17 @@ def run_ssicov(seed, raw, ordmin, tol, alg=None):
         alg._set_data(H.tiny_data(seed, n), 100.0)
     else:
         alg.run_params.br, alg.run_params.ordmax, alg.run_params.ordmin, alg.run_params.sc = br, C - 1, ordmin, sc
+    others_then_run(env, "SSIcov.run", sc)
     res = alg.run()
     return alg, res
+
+
+def others_then_run(env, route, sc):
+    """Between the creation (or re-parameterisation) of the judged algorithm and its run(): the other objects of the case are
+    created and kept alive in env until the labels were judged."""
+    if env is not None:
+        env["sc"] = sc
+        env["others"] = make_others(route, env["mode"], env["idx"], env["ti"])
 
 
 _COV = {}
@@ -378,7 +467,7 @@ class designed_ssi_unc:
         return False
 
 
-def run_ssicov_unc(seed, raw, cov, ordmin, tol, d, L, alg=None):
+def run_ssicov_unc(seed, raw, cov, ordmin, tol, d, L, alg=None, env=None):
     from pyoma2.algorithms.ssi import SSIcov
 
     C = raw[0].shape[1]
@@ -395,6 +484,7 @@ def run_ssicov_unc(seed, raw, cov, ordmin, tol, d, L, alg=None):
     else:
         rp = alg.run_params
         rp.br, rp.ordmax, rp.ordmin, rp.sc, rp.hc, rp.method, rp.calc_unc, rp.nb = br, C - 1, ordmin, sc, hc, "cov_mm", True, nb
+    others_then_run(env, UNC, sc)
     res = alg.run()
     return alg, res
 
@@ -404,7 +494,7 @@ def plscf_setup(C):
     return max(24, 3 * nx), nx
 
 
-def run_plscf(seed, raw, ordmin, tol, alg=None):
+def run_plscf(seed, raw, ordmin, tol, alg=None, env=None):
     from pyoma2.algorithms.plscf import pLSCF
 
     C = raw[0].shape[1]
@@ -416,6 +506,7 @@ def run_plscf(seed, raw, ordmin, tol, alg=None):
         alg._set_data(H.tiny_data(seed, n), 100.0)
     else:
         alg.run_params.ordmax, alg.run_params.ordmin, alg.run_params.nxseg, alg.run_params.sc = C, ordmin, nx, sc
+    others_then_run(env, "pLSCF.run", sc)
     res = alg.run()
     return alg, res
 
@@ -469,18 +560,23 @@ def one_case(t, seed, sp, idx, route, prm, state=None, count=True):
                     t.outcomes[f"{route}:cov_max-removes-a-pole-that-the-soft-criteria-alone-would-label-stable"] += 1
                 if moved.any():
                     t.outcomes[f"{route}:cov_max-changes-the-label-of-a-surviving-pole(its-previous-order-lost-poles)"] += 1
+    # other live objects (fixed by table index and grid element): created after the judged algorithm, before its run()
+    env = {"mode": other_mode(idx, prm), "idx": idx, "ti": ti, "others": []}
+    case["other_live_objects"] = OTHER_MODES[env["mode"]]
     try:
         if route == UNC:
-            alg, res = run_ssicov_unc(seed, raw, cov, ordmin, tol, d, L, alg)
+            alg, res = run_ssicov_unc(seed, raw, cov, ordmin, tol, d, L, alg, env)
         elif route == "SSIcov.run":
-            alg, res = run_ssicov(seed, raw, ordmin, tol, alg)
+            alg, res = run_ssicov(seed, raw, ordmin, tol, alg, env)
         else:
-            alg, res = run_plscf(seed, raw, ordmin, tol, alg)
+            alg, res = run_plscf(seed, raw, ordmin, tol, alg, env)
     except Exception as e:
-        t.violation(f"{route}:raises:{type(e).__name__}", f"{route} raised {type(e).__name__}: {e} on a designed population", case)
+        t.violation(f"{route}:raises:{type(e).__name__}", f"{route} raised {type(e).__name__}: {e} on a designed population "
+                                                          f"(other live objects: {[o[1] for o in env['others']]})", case)
         return None, False
     if state is not None:
         state[route] = alg
+    judge_live_objects(t, route, alg, tol, env, designed, ordmin, ordmax, case, count)
     looked = []
     if (idx * 31 + ordmin * 7 + ti) % LOOK_EVERY == 0:
         # run, LOOK, then read (mc/looks.py): the result is stored on the algorithm as the setups do, its charts are drawn with a
@@ -521,6 +617,51 @@ def one_case(t, seed, sp, idx, route, prm, state=None, count=True):
     lenient = ordmin - 1 if route == "pLSCF.run" else None
     nt = judge(t, route, res.Lab, got[0], got[1], got[2], ordmin, ordmax, tol, case, lenient_col=lenient, count=count)
     return np.asarray(res.Lab).tobytes(), nt
+
+
+def judge_live_objects(t, route, alg, tol, env, designed, ordmin, ordmax, case, count):
+    """After run(): the tolerances stored on the judged algorithm and on every other live object are still the ones handed over,
+    and the handed-over dictionaries are untouched. The LABELS are judged afterwards against the triple this check handed over
+    (never against what run_params.sc reads back)."""
+    others = env["others"]
+    mode_name = OTHER_MODES[env["mode"]]
+    given = {"err_fn": tol[0], "err_xi": tol[1], "err_phi": tol[2]}
+    desc = [o[1] for o in others]
+    case["other_live_objects"] = {"mode": mode_name, "created_between_creation_and_run_of_the_judged_algorithm": desc}
+    if count:
+        t.outcomes[f"{route}:other-live-objects:{mode_name}"] += 1
+        for obj, d, _, _ in others:
+            t.outcomes[f"{route}:other-live-object-created-by:{d.split(' by ')[1].split(' with ')[0]}"] += 1
+            t.outcomes[f"{route}:other-live-object-of-class:{type(getattr(obj, 'run_params', obj)).__name__}"] += 1
+        if others:
+            # ground truth (designed tables): would the labels differ under the triple of the object created last?
+            last = others[-1][2]
+            e_own = reference(designed[0], designed[1], designed[2], ordmin, ordmax, tol)[0]
+            e_oth = reference(designed[0], designed[1], designed[2], ordmin, ordmax, (last["err_fn"], last["err_xi"], last["err_phi"]))[0]
+            differ = ((e_own != e_oth) & (e_own != -1) & (e_oth != -1)).any()
+            t.outcomes[f"{route}:other-live-objects:labels-under-the-last-created-object's-triple-" + ("differ" if differ else "are-the-same")] += 1
+    try:
+        got = dict(stored_sc(alg))
+    except Exception as e:
+        got = f"{type(e).__name__}: {e}"
+    if got != given:
+        t.violation(f"{route}:run_params.sc-differs-from-the-tolerances-handed-over",
+                    f"{route}: after run() the algorithm's run_params.sc reads {got!r}, handed over was {given!r}; other live objects: {desc}", case)
+    if dict(env["sc"]) != given:
+        t.violation(f"{route}:sc-dictionary-handed-over-was-modified",
+                    f"{route}: the sc dictionary handed over reads {env['sc']!r} after run(), was {given!r}; other live objects: {desc}", case)
+    for obj, d, g, sc in others:
+        try:
+            got = dict(stored_sc(obj))
+        except Exception as e:
+            got = f"{type(e).__name__}: {e}"
+        if got != g:
+            t.violation(f"{route}:run_params.sc-of-another-live-object-differs-from-the-tolerances-handed-over-to-it",
+                        f"{route}: the other live object ({d}) stores sc={got!r} after the judged algorithm (sc={given!r}) was run; "
+                        f"all other live objects: {desc}", case)
+        if dict(sc) != g:
+            t.violation(f"{route}:sc-dictionary-handed-over-was-modified",
+                        f"{route}: the sc dictionary handed to another live object ({d}) reads {sc!r}, was {g!r}", case)
 
 
 LOOK_EVERY = 97
@@ -641,6 +782,13 @@ def explore(ctx):
     bounds["read_only_operations_interleaved"] = (f"class routes, one case in {LOOK_EVERY} (fixed by table index, ordmin and tolerance index): the result is stored "
                                                   "on the algorithm and plot_stab / plot_cluster / plot_svalH are called with a frequency window leaving about half "
                                                   "of the poles outside, before the labels are compared with the stored tables")
+    bounds["other_live_objects_axis"] = {
+        "routes": [r for r in ALL_ROUTES if r != "SC_apply"], "modes": list(OTHER_MODES),
+        "mode_of_case": "(table index + ordmin + 2 * tolerance index [+ design + level]) mod 4",
+        "created": "after the judged algorithm, before its run(); kept alive until the labels were judged; not run",
+        "classes": {"SSIRunParams": list(_SSI_FAMILY), "pLSCFRunParams": list(_PLSCF_FAMILY)}, "call_forms": list(OTHER_FORMS),
+        "their_tolerances": "another of the three triples, or the judged triple with exactly one component from another triple; "
+                            "complete dict, key order rotating over the six orders"}
     ctx.bounds = bounds
     warm(ctx.seed)
     # heaviest first for load balance; results are merged order-independently (counts only)
@@ -665,6 +813,13 @@ def explore(ctx):
             "pLSCF.run:looked-at-algorithm-before-reading:plot_stab", "pLSCF.run:looked-at-algorithm-before-reading:plot_cluster",
             f"{UNC}:looked-at-algorithm-before-reading:plot_stab", "SSIcov.run:looked-with-a-stable-pole-outside-the-window",
             "pLSCF.run:looked-with-a-stable-pole-outside-the-window", f"{UNC}:looked-with-a-stable-pole-outside-the-window"]
+    # other live objects: every mode on every class route, both parameter classes, every call form, and cases in which the labels
+    # would really be different under the triple of the object created last
+    for r in ALL_ROUTES[1:]:
+        req += [f"{r}:other-live-objects:{m}" for m in OTHER_MODES]
+        req += [f"{r}:other-live-object-created-by:{f}" for f in OTHER_FORMS]
+        req += [f"{r}:other-live-object-of-class:SSIRunParams", f"{r}:other-live-object-of-class:pLSCFRunParams",
+                f"{r}:other-live-objects:labels-under-the-last-created-object's-triple-differ"]
     ctx.require(*req)
 
 
